@@ -81,16 +81,12 @@ fn main() -> ExitCode {
 
     let mut first_arg = args[0].to_ascii_lowercase();
 
-    if first_arg.contains("version") || first_arg.starts_with("-v") {
+    if is_switch(&first_arg, &["version", "v"], true) {
         short_usage_info(no_color);
         return ExitCode::SUCCESS;
     }
 
-    if first_arg.contains("help")
-        || first_arg.starts_with("-h")
-        || first_arg.starts_with("/?")
-        || first_arg.starts_with("/h")
-    {
+    if is_switch(&first_arg, &["help", "h", "?"], true) {
         usage_info(config, default_config, no_color);
         return ExitCode::SUCCESS;
     }
@@ -98,17 +94,11 @@ fn main() -> ExitCode {
     let mut interactive = false;
 
     loop {
-        if first_arg.contains("nocolor") || first_arg.contains("no-color") {
+        if is_switch(&first_arg, &["nocolor", "no-color"], false) {
             no_color = true;
-        } else if first_arg.starts_with("-i")
-            || first_arg.starts_with("--i")
-            || first_arg.starts_with("/i")
-        {
+        } else if is_switch(&first_arg, &["i", "interactive"], false) {
             interactive = true;
-        } else if first_arg.starts_with("-c")
-            || first_arg.starts_with("--config")
-            || first_arg.starts_with("/c")
-        {
+        } else if is_switch(&first_arg, &["c", "config"], false) {
             if args.len() < 2 {
                 error_message("config", "path to the configuration file is missing");
                 return ExitCode::from(2);
@@ -203,6 +193,14 @@ fn main() -> ExitCode {
     }
 
     ExitCode::SUCCESS
+}
+
+/// Tells whether a command-line argument as a whole is one of the given switches
+/// (`--name`, `-name` or `/name`; the bare word as well where that has been accepted before),
+/// so that a query which merely contains such a word is not mistaken for a switch.
+fn is_switch(arg: &str, names: &[&str], allow_bare_word: bool) -> bool {
+    let name = arg.trim_start_matches(['-', '/']);
+    (allow_bare_word || name.len() < arg.len()) && names.contains(&name)
 }
 
 fn exec_search(query: Vec<String>, config: &mut Config, default_config: &Config, no_color: bool) -> u8 {
